@@ -6,7 +6,7 @@ from lib import Check, Driver, s_str, s_opt
 from oracles import calendar_spec as spec
 
 PID = 'C18'
-CONE = ['Calendar.v', 'CalendarFacts.v', 'Inputs.v', 'Regex.v', 'RunFacts.v', 'DateShape.v', 'gen/PureGen.v', 'gen/RegexGen.v']
+CONE = ['Calendar.v', 'CalendarFacts.v', 'Inputs.v', 'Regex.v', 'RunFacts.v', 'DateShape.v', 'gen/PureGen.v', 'gen/RegexGen.v', 'AttrFacts.v', 'AttrPat.v', 'RegexLang.v', 'NumShape.v']
 TYPES = ['date', 'month', 'week', 'time', 'datetime-local', 'number', 'range']
 YEARS = [0, 1, 4, 99, 100, 400, 999, 1000, 1582, 1600, 1900, 1979, 1980, 1999, 2000, 2004, 2015, 2019, 2020, 2021,
          2024, 2026, 2100, 2400, 9999, 10000, 12345, 40000, 123456]
